@@ -89,95 +89,128 @@ theorem wavefront_timing_equals_emulator_without_hazard_check_refuted :
       rw [h1.2, h2.2] at e
       exact absurd e (by decide)
 
-/-! ## `s_getpc_b64`: `alu.Run` before or after the PC update -/
+/-! ## `s_getpc_b64`: `alu.Run` before or after the PC update (repaired) -/
 
-/-- **getpc_differs.** The scalar unit calls `alu.Run` while the wavefront's PC still points AT the
-    instruction and adds the size in the write stage; the emulator adds the size BEFORE `alu.Run`
-    (`runWfUntilBarrier`). `s_getpc_b64 s[4:5]` at 0x1000 therefore leaves s4 = 0x1000 in timing mode and
-    0x1004 (the address of the next instruction, as on hardware) in emulation. No schedule is involved:
-    the program has a single instruction. Replayed on the real code: `C02.wf-getpc-differs`. -/
-theorem getpc_differs :
+/-- **getpc_equal_after_fix.** The repaired scalar unit advances the PC before `alu.Run`, as the emulator
+    (`runWfUntilBarrier`) and the hardware do: `s_getpc_b64 s[4:5]` at 0x1000 leaves s4 = 0x1004 (the
+    address of the next instruction) in both modes, and the program is covered by
+    `wavefront_timing_equals_emulator` (no restriction on PC-reading scalar instructions any more). -/
+theorem getpc_equal_after_fix :
     (trun PPc (fun _ _ => true) (tinit 0x1000 demoRegs demoMem) evsPc).map
-      (fun T => (T.ph, T.regs (sreg 4))) = some (.done, 0x1000) ∧
+      (fun T => (T.ph, T.regs (sreg 4))) = some (.done, 0x1004) ∧
     (erun PPc 2 (einit 0x1000 demoRegs demoMem)).map
       (fun E => (E.done, E.regs (sreg 4))) = some (true, 0x1004) ∧
-    hazardFreeRun PPc 2 (einit 0x1000 demoRegs demoMem, {}) = true := by
+    hazardFreeRun PPc 2 (einit 0x1000 demoRegs demoMem, {}) = true ∧ PPc.WF := by
+  refine ⟨?_, ?_, ?_, PPc_wf⟩ <;> decide +kernel
+
+/-- **getpc_differs_before_fix.** Before the repair the scalar unit called `alu.Run` while the PC still
+    pointed AT the instruction and added the size in the write stage: s4 = 0x1000 in timing mode,
+    0x1004 in emulation (replayed on the code before commit "fix: the scalar unit …":
+    `C02.wf-getpc-differs`, s[4:5] = 1000,0 vs 1004,0). -/
+theorem getpc_differs_before_fix :
+    (trun PPcOld (fun _ _ => true) (tinit 0x1000 demoRegs demoMem) evsPc).map
+      (fun T => (T.ph, T.regs (sreg 4))) = some (.done, 0x1000) ∧
+    (erun PPcOld 2 (einit 0x1000 demoRegs demoMem)).map
+      (fun E => (E.done, E.regs (sreg 4))) = some (true, 0x1004) ∧
+    hazardFreeRun PPcOld 2 (einit 0x1000 demoRegs demoMem, {}) = true := by
   refine ⟨?_, ?_, ?_⟩ <;> decide +kernel
 
 /-- non-vacuity of `driver_runs_the_model`: the driver's loops on the `s_getpc_b64` program -/
 example : (trunIdx PPc (tinit 0x1000 demoRegs demoMem) evsPc).2 = none := by decide +kernel
 example : (erunFuel PPc 5 (einit 0x1000 demoRegs demoMem)).2 = "done" := by decide +kernel
 
-/-- the main statement for programs whose instructions may look at the PC (`Prog.WF` without `PcIndep`) -/
-def wavefront_timing_equals_emulator_with_pc_readers : Prop :=
-  ∀ (P : Prog), (∀ l i, P.dec l = some i → i.WF) →
+/-- the main statement for the compute unit as it was before the repairs (`oldCU` unconstrained) -/
+def wavefront_timing_equals_emulator_before_fix : Prop :=
+  ∀ (P : Prog), (∀ l i, P.dec l = some i → i.WF ∧ i.PcOK) →
     (∀ l i, P.dec l = some i → i.size ≤ l.length ∧ ∀ l', l'.take i.size = l.take i.size → P.dec l' = some i) →
     ∀ (gate : TState → Inst → Bool) (pc : Nat) (regs : RF) (mem : Mem) (fuel : Nat),
     hazardFreeRun P fuel (einit pc regs mem, {}) = true →
     ∀ (evs : List Ev) (T : TState), trun P gate (tinit pc regs mem) evs = some T → T.ph = .done →
     ∃ n E, erun P n (einit pc regs mem) = some E ∧ E.done = true ∧ T.regs = E.regs
 
-/-- refuted by `getpc_differs`: a genuine difference between the two simulators -/
-theorem wavefront_timing_equals_emulator_with_pc_readers_refuted :
-    ¬ wavefront_timing_equals_emulator_with_pc_readers := by
+/-- refuted by `getpc_differs_before_fix` -/
+theorem wavefront_timing_equals_emulator_before_fix_refuted :
+    ¬ wavefront_timing_equals_emulator_before_fix := by
   intro h
-  obtain ⟨h1, h2, h3⟩ := getpc_differs
-  cases hT : trun PPc (fun _ _ => true) (tinit 0x1000 demoRegs demoMem) evsPc with
+  obtain ⟨h1, h2, h3⟩ := getpc_differs_before_fix
+  cases hT : trun PPcOld (fun _ _ => true) (tinit 0x1000 demoRegs demoMem) evsPc with
   | none => rw [hT] at h1; cases h1
   | some T =>
     rw [hT] at h1
     simp only [Option.map_some, Option.some.injEq, Prod.mk.injEq] at h1
-    cases hE : erun PPc 2 (einit 0x1000 demoRegs demoMem) with
+    cases hE : erun PPcOld 2 (einit 0x1000 demoRegs demoMem) with
     | none => rw [hE] at h2; cases h2
     | some E2 =>
       rw [hE] at h2
       simp only [Option.map_some, Option.some.injEq, Prod.mk.injEq] at h2
-      have hwf : ∀ l i, PPc.dec l = some i → i.WF := by
-        intro l i hd
-        obtain ⟨c, _, rfl⟩ := cprog_dec_some _ _ _ l i hd
-        exact compile_wf c
-      obtain ⟨n, E, hrun, hd, hregs⟩ := h PPc hwf (cprog_pfx _ _ _) _ _ _ _ 2 h3 evsPc T hT h1.1
-      have := erun_done_unique PPc n 2 _ E E2 hrun hd hE h2.1
+      obtain ⟨n, E, hrun, hd, hregs⟩ := h PPcOld PPc_wf.inst PPc_wf.pfx _ _ _ _ 2 h3 evsPc T hT h1.1
+      have := erun_done_unique PPcOld n 2 _ E E2 hrun hd hE h2.1
       subst this
       have e := congrFun hregs (sreg 4)
       rw [h1.2, h2.2] at e
       exact absurd e (by decide)
 
-/-! ## a FLAT access with EXEC = 0 does not count: `s_waitcnt vmcnt(n)` is off by one -/
+/-! ## a FLAT access with EXEC = 0 and `s_waitcnt vmcnt(n)` (repaired) -/
 
-/-- **vmcnt_skips_empty_access.** `executeFlatLoad`/`executeFlatStore` return before
-    `OutstandingVectorMemAccess++` when the coalescer forms no transaction (EXEC = 0), so the counter
-    counts one access less than the program order `s_waitcnt vmcnt(n)` refers to. The program passes the
-    static check a compiler performs (every FLAT instruction counts: `hcheck = true`), yet the compute
-    unit's rules accept a schedule that ends with `v7[0] = 0x200000` where the emulator has
-    `0x200000 ^ loaded`; the address-exact check, which counts as the code does, rejects it.
-    Replayed on the real compute unit: `C02.wf-vmcnt-empty-access`. -/
-theorem vmcnt_skips_empty_access :
-    hcheck (csEmpty.map compile) = true ∧
-    (trun PEmpty (fun _ _ => true) (tinit 0x1000 demoRegs demoMem) evsEmpty).map
-      (fun T => (T.ph, T.regs (vreg 7 0))) = some (.done, 0x200000) ∧
+/-- **empty_access_waits_after_fix.** In the repaired vector memory unit a FLAT access for which the
+    coalescer forms no transaction (EXEC = 0) waits until the older vector accesses of its wavefront have
+    returned. The schedule that exposed the defect is no longer possible (`trun … = none`: load B cannot
+    execute while load A is in flight); on the schedule the unit now follows the wavefront ends with
+    `v7[0] = 0x200000 ^ loaded` as in the emulator, and the program passes the address-exact check. -/
+theorem empty_access_waits_after_fix :
+    trun PEmpty (fun _ _ => true) (tinit 0x1000 demoRegs demoMem) evsEmpty = none ∧
+    (trun PEmpty (fun _ _ => true) (tinit 0x1000 demoRegs demoMem) evsEmptyFixed).map
+      (fun T => (T.ph, T.regs (vreg 7 0))) = some (.done, 372180993) ∧
     (erun PEmpty 12 (einit 0x1000 demoRegs demoMem)).map
       (fun E => (E.done, E.regs (vreg 7 0))) = some (true, 372180993) ∧
-    hazardFreeRun PEmpty 12 (einit 0x1000 demoRegs demoMem, {}) = false := by
+    hazardFreeRun PEmpty 12 (einit 0x1000 demoRegs demoMem, {}) = true := by
+  refine ⟨?_, ?_, ?_, ?_⟩
+  · cases h : trun PEmpty (fun _ _ => true) (tinit 0x1000 demoRegs demoMem) evsEmpty with
+    | none => rfl
+    | some T =>
+      have : (trun PEmpty (fun _ _ => true) (tinit 0x1000 demoRegs demoMem) evsEmpty).isSome = false := by
+        decide +kernel
+      rw [h] at this; cases this
+  · decide +kernel
+  · decide +kernel
+  · decide +kernel
+
+/-- **vmcnt_skips_empty_access_before_fix.** Before the repair `executeFlatLoad`/`executeFlatStore`
+    completed an access without transactions at once, without `OutstandingVectorMemAccess++`: the counter
+    counted one access less than the program order `s_waitcnt vmcnt(n)` refers to. The program passes
+    the static check (`hcheck = true`), yet the old rules accepted a schedule ending with
+    `v7[0] = 0x200000` where the emulator has `0x200000 ^ loaded` (replayed on the code before commit
+    "fix: a FLAT load/store for which the coalescer forms no transaction …": `C02.wf-vmcnt-empty-access`,
+    v8 lane 0 `fa384efd` vs `ac76539`). -/
+theorem vmcnt_skips_empty_access_before_fix :
+    hcheck (csEmpty.map compile) = true ∧
+    (trun PEmptyOld (fun _ _ => true) (tinit 0x1000 demoRegs demoMem) evsEmpty).map
+      (fun T => (T.ph, T.regs (vreg 7 0))) = some (.done, 0x200000) ∧
+    (erun PEmptyOld 12 (einit 0x1000 demoRegs demoMem)).map
+      (fun E => (E.done, E.regs (vreg 7 0))) = some (true, 372180993) ∧
+    hazardFreeRun PEmptyOld 12 (einit 0x1000 demoRegs demoMem, {}) = false := by
   refine ⟨?_, ?_, ?_, ?_⟩ <;> decide +kernel
 
-/-- "the static check alone (as on hardware, where every FLAT instruction counts) is enough" -/
-def static_check_alone_suffices : Prop :=
+/-- "the static check alone is enough" for the compute unit before the repair -/
+def static_check_alone_suffices_before_fix : Prop :=
   ∀ (base : Nat) (cs : List CInst) (regs : RF) (mem : Mem) (evs : List Ev) (T : TState),
     (∀ d, CInst.getpc d ∉ cs) → hcheck (cs.map compile) = true →
-    trun (cprog base cs noForeign) (fun _ _ => true) (tinit base regs mem) evs = some T → T.ph = .done →
-    ∃ n E, erun (cprog base cs noForeign) n (einit base regs mem) = some E ∧ E.done = true ∧ T.regs = E.regs
+    trun { cprog base cs noForeign with oldCU := true } (fun _ _ => true) (tinit base regs mem) evs = some T →
+    T.ph = .done →
+    ∃ n E, erun { cprog base cs noForeign with oldCU := true } n (einit base regs mem) = some E ∧
+      E.done = true ∧ T.regs = E.regs
 
-/-- refuted by `vmcnt_skips_empty_access`: a genuine defect of the timing compute unit -/
-theorem static_check_alone_suffices_refuted : ¬ static_check_alone_suffices := by
+/-- refuted by `vmcnt_skips_empty_access_before_fix`; the statement for the repaired unit is the theorem
+    `static_check_alone_suffices` -/
+theorem static_check_alone_suffices_before_fix_refuted : ¬ static_check_alone_suffices_before_fix := by
   intro h
-  obtain ⟨h0, h1, h2, _⟩ := vmcnt_skips_empty_access
-  cases hT : trun PEmpty (fun _ _ => true) (tinit 0x1000 demoRegs demoMem) evsEmpty with
+  obtain ⟨h0, h1, h2, _⟩ := vmcnt_skips_empty_access_before_fix
+  cases hT : trun PEmptyOld (fun _ _ => true) (tinit 0x1000 demoRegs demoMem) evsEmpty with
   | none => rw [hT] at h1; cases h1
   | some T =>
     rw [hT] at h1
     simp only [Option.map_some, Option.some.injEq, Prod.mk.injEq] at h1
-    cases hE : erun PEmpty 12 (einit 0x1000 demoRegs demoMem) with
+    cases hE : erun PEmptyOld 12 (einit 0x1000 demoRegs demoMem) with
     | none => rw [hE] at h2; cases h2
     | some E2 =>
       rw [hE] at h2
